@@ -27,6 +27,7 @@ func init() {
 			"C18.h a selector admits a WebService (candidate append, best-so-far update) only under the answer of a call that was given that service's pathExpr; " +
 			"C18.i a derived copy of the route table that the request path reads follows every change of it (= C11.l); " +
 			"C18.j a selector takes a route of the service's table into its candidates only under the answer of a call that was given the route's pathExpr or pathParts; " +
+			"C18.k an assignment of WebService.rootPath is followed by the recompilation of pathExpr under no further condition; " +
 			"C18.e every module RouteSelector ends in one and the same method/media stage, hands it this request, and returns its route and its error untouched; the errors a selector builds itself carry the same status as its sibling's at the same stage (no service, no route).",
 		NotDecided: "that token matching and regular-expression matching admit the same (template, URL) pairs, and that the rankings coincide beyond the clauses above: value-level relations between two algorithms on every table of the common fragment.",
 		Rules: []Rule{
@@ -48,6 +49,8 @@ func init() {
 				Doc: "Neither router keeps route tables of its own today. A derived copy one of them introduces (an index by token count, a snapshot) must follow every change of WebService.routes, or the router that has it answers from a stale table where its sibling reads the live one (same obligations as C11.l)."},
 			{ID: "C18.j", Template: "T-GUARD", Required: true, Run: ruleC18j,
 				Doc: "Both selectors decide whether a route's template matches the rest of the URL from what was compiled from the template: the pathExpr (regular expression) or the pathParts (tokens). A route taken from the service's table into the candidates under any other test - a comparison of path strings for 'literal' routes - is admitted for other URLs than under the sibling."},
+			{ID: "C18.k", Template: "T-SIBLING", Required: true, Run: ruleRootRecompiled,
+				Doc: "Both routers read the root of a WebService from what was compiled from it (pathExpr: Matcher and tokens); the routes carry the root path string. An assignment of rootPath is followed by the recompilation of pathExpr under no further condition: 'compile only if there is none' leaves the routers matching the old root after a second Path() while new routes carry the new one."},
 			{ID: "C18.e", Template: "T-SIBLING", Required: true, Run: ruleC18e,
 				Doc: "Method, Content-Type and Accept are decided in one place for both routers; a selector that post-processes the stage's answer, or answers its own stages with another status than its sibling, is observable when the router is switched."},
 		},
